@@ -105,7 +105,7 @@ HistSeq == SetToSeq(Hists)
 
 Pairs == SetToSeq(UNION {{<<ci, di>> : di \in 1..Len(Commands[ci].dims)} : ci \in 1..Len(Commands)})
 NCasesAll == Len(Pairs) * Len(HistSeq)
-Picked == SelectSeq([j \in 1..NCasesAll |-> j], LAMBDA j : j % Stride = Offset % Stride)
+Picked == SelectSeq([j \in 1..NCasesAll |-> j], LAMBDA j : (j + (j \div Stride) + (j \div (Stride * Stride))) % Stride = Offset % Stride)
 
 CaseJson(j) ==
   LET pi == ((j - 1) \div Len(HistSeq)) + 1
